@@ -724,10 +724,12 @@ func configs(tier string) []plan {
 			{cfg{N: 3, Byz: -1, T: 6, Restarts: 1}, 3, 30},
 			{cfg{N: 4, Byz: 1, T: 6, Restarts: 1}, 2, 7},
 			{cfg{N: 4, Byz: -1, T: 7, Restarts: 1}, 2, 6},
-			{cfg{N: 3, Byz: -1, T: 8, Restarts: 1}, 2, 5},
+			{cfg{N: 3, Byz: -1, T: 9, Restarts: 1}, 2, 5},
 		}
 	}
-	return []plan{{cfg{N: 3, Byz: -1, T: 6, Restarts: 1}, 2, 16}, {cfg{N: 4, Byz: 1, T: 6, Restarts: 0}, 2, 16}}
+	// n=3 runs to slot 8: the first reorganisation that rebuilds the finality status below an
+	// irreversible block needs a fork at slot 6 or later (F28 was found at T=8, not at T=6)
+	return []plan{{cfg{N: 3, Byz: -1, T: 8, Restarts: 1}, 2, 20}, {cfg{N: 4, Byz: 1, T: 6, Restarts: 0}, 2, 12}}
 }
 
 func explore(ctx *xplor.Ctx, c cfg, k, shard, nshards int) {
